@@ -15,7 +15,7 @@
      acts   : ';'-separated   f:a                  active index of failover group f
      faults : ';'-separated   T:k:<idhex|*>:from:to:F[:arg]   T in G P N; the from..to-1 th
               occurrence (counted in the history) of that operation gets fault F in io rd rp rs
-              (rs:<labelidhex>:<hex> = an answer labelled as that chunk)
+              (rs:<flags>:<labelidhex>:<hex> = a CHUNK answer with those flags, labelled as that chunk)
      dec    : ';'-separated   <inhex>:<outhex|!>   what the real zstd decoder does
      comp   : ';'-separated   <inhex>:<outhex>     what the real zstd encoder does
      hash   : ';'-separated   <datahex>:<idhex>    the digest in use
@@ -89,7 +89,7 @@ let parse_rule (e : string) : rule =
         | "io", _ -> FIO
         | "rd", [n] -> FRead (nat_of_int (int_of_string n))
         | "rp", [h] -> FReplace (bytes_of_hex h)
-        | "rs", [l; h] -> FRespond (id_of_hex l, bytes_of_hex h)
+        | "rs", [fg; l; h] -> FRespond (n_of_string fg, id_of_hex l, bytes_of_hex h)
         | _ -> failwith ("fault " ^ f) in
       { rt = t.[0]; rk = int_of_string k; rid = (if i = "*" then None else Some (id_of_hex i));
         rfrom = int_of_string a; rto = int_of_string b; rf = fl }
